@@ -23,6 +23,11 @@
    No proofs here.  The callers of these calls as sessions that take the contract lock: Sess.v; what the
    chain does to a negotiated renewal: Chain.v (WP-N).
 
+   WP-G: the model contains fixes/C06-revise-guard-at-commit.patch — Manager.revisable (Store.Contract, then
+   isGoodForModification at the CURRENT tip) is evaluated by ReviseContract ([Open1]), by
+   ContractUpdater.Commit ([Commit1]) and by RenewContract ([Renew1], on the existing contract), not only by
+   Manager.Lock ([Lock1]).  The code before the patch (guard at lock acquisition only) is [legacy_step].
+
    Conventions
    - roots, contract ids and hashes are numbered by the harness (injectively); hash id 0 is
      the all-zero types.Hash256.
@@ -458,9 +463,17 @@ Definition cdel {V} (k : N) (l : list (N * V)) : list (N * V) := filter (fun p =
 Definition cache_get (s : state) (id : cid) : list root :=
   match alookup id (cache s) with Some l => l | None => [] end.
 
-(* isGoodForModification (status is Pending or Active throughout: no chain events here) *)
+(* isGoodForModification at tip height h (status is Pending or Active throughout: no chain events here) *)
 Definition good1 (h : N) (c : ct) : bool :=
   negb (wstart c <? wadd h rev_buffer) && negb (rev c =? max_rev).
+
+(* Manager.revisable (WP-G patch): Store.Contract (one read transaction), then isGoodForModification
+   at the tip as it is NOW — the contract lock may have been acquired many blocks ago *)
+Definition revisable1 (h : N) (t : list (cid * ct)) (id : cid) : res unit :=
+  match alookup id t with
+  | None => Err ENotFound
+  | Some c => if good1 h c then Ok tt else Err EInvalid
+  end.
 
 Inductive op :=
 | StoreSec (r : root)                            (* Store.StoreSector *)
@@ -510,8 +523,18 @@ Definition outcome {A} (s : state) (r : res (A * option nat)) (f : A -> state) :
   | Panic => (s, ORes Panic)
   end.
 
+(* the same inside the statement-counting monad: the read transaction of Store.Contract can be hit by an
+   injected store failure like any other *)
+Definition m_revisable1 (s : state) (id : cid) : M unit :=
+  mdo c <- store_get (t1 (dbs s)) id;
+  if good1 (height s) c then ret tt else lift (Err EInvalid).
+
+(* ContractUpdater.Commit after its guard *)
 Definition m_commit1 (s : state) (x : updater) (nrev nfsize : N) (nmroot : hash) : M db :=
   store_revise1 (dbs s) (u_cid x) nrev nfsize nmroot (u_old x) (u_acts x).
+(* ContractUpdater.Commit: revisable, then Store.ReviseContract *)
+Definition g_commit1 (s : state) (x : updater) (nrev nfsize : N) (nmroot : hash) : M db :=
+  mdo _ <- m_revisable1 s (u_cid x); m_commit1 s x nrev nfsize nmroot.
 
 Definition m_renew1 (s : state) (old new : cid) (crev cfsize : N) (cmroot : hash)
            (nrev nfsize : N) (nmroot : hash) (nws : N) (mold : hash) : M db :=
@@ -524,6 +547,11 @@ Definition m_renew1 (s : state) (old new : cid) (crev cfsize : N) (cmroot : hash
   else store_renew1 (dbs s) old new crev cfsize cmroot
          {| rev := nrev; fsize := nfsize; cap := 0; mroot := nmroot; wstart := nws; expi := 0;
             rk := 0; hk := 0; rto := None; rfrom := None; rows := [] |}.
+
+(* Manager.RenewContract: revisable(existing), then the sanity checks and Store.RenewContract *)
+Definition g_renew1 (s : state) (old new : cid) (crev cfsize : N) (cmroot : hash)
+           (nrev nfsize : N) (nmroot : hash) (nws : N) (mold : hash) : M db :=
+  mdo _ <- m_revisable1 s old; m_renew1 s old new crev cfsize cmroot nrev nfsize nmroot nws mold.
 
 Definition opt_is_some {A} (o : option A) : bool := match o with Some _ => true | None => false end.
 
@@ -588,8 +616,13 @@ Definition step (s : state) (o : op) : state * obs :=
       if mem id (locks s) then (set_locks s (filter (fun x => negb (x =? id)) (locks s)), ORes (Ok tt))
       else (s, ORes Panic)                       (* "unlocking unheld lock" *)
   | Open1 u id =>
-      let l := cache_get s id in
-      (set_upds s (aset u {| u_cid := id; u_roots := l; u_old := l; u_acts := [] |} (upds s)), ORes (Ok tt))
+      match revisable1 (height s) (t1 (dbs s)) id with
+      | Ok _ =>
+          let l := cache_get s id in
+          (set_upds s (aset u {| u_cid := id; u_roots := l; u_old := l; u_acts := [] |} (upds s)), ORes (Ok tt))
+      | Err e => (s, ORes (Err e))
+      | Panic => (s, ORes Panic)
+      end
   | Act u a =>
       match alookup u (upds s) with
       | None => (s, OAct (Err ENotFound) [])
@@ -605,7 +638,7 @@ Definition step (s : state) (o : op) : state * obs :=
       match alookup u (upds s) with
       | None => (s, ORes (Err ENotFound))
       | Some x =>
-          outcome s (m_commit1 s x nrev nfsize nmroot fault)
+          outcome s (g_commit1 s x nrev nfsize nmroot fault)
             (fun d => set_upds (set_cache (set_dbs s d) (aset (u_cid x) (u_roots x) (cache s)))
                         (* sectorActions cleared; oldRoots := sectorRoots (C03 patch) *)
                         (aset u {| u_cid := u_cid x; u_roots := u_roots x; u_old := u_roots x;
@@ -613,7 +646,7 @@ Definition step (s : state) (o : op) : state * obs :=
       end
   | Close1 u => (set_upds s (aremove u (upds s)), ORes (Ok tt))
   | Renew1 old new crev cfsize cmroot nrev nfsize nmroot nws mold fault =>
-      outcome s (m_renew1 s old new crev cfsize cmroot nrev nfsize nmroot nws mold fault)
+      outcome s (g_renew1 s old new crev cfsize cmroot nrev nfsize nmroot nws mold fault)
         (* setSectorRoots(renewal), then deleteSectorRoots(existing) (13cd476) *)
         (fun d => set_cache (set_dbs s d) (cdel old (aset new (cache_get s old) (cache s))))
   | Revise2 id c newroots mnew rsig hsig fault =>
@@ -641,6 +674,28 @@ Definition step (s : state) (o : op) : state * obs :=
       outcome s (store_revise1 (dbs s) id nrev nfsize nmroot old acts fault) (set_dbs s)
   | RawRevise2 id c old new fault =>
       outcome s (store_revise2 (dbs s) id c old new fault) (set_dbs s)
+  end.
+
+(* the three calls as they were before the WP-G patch: isGoodForModification is evaluated by Manager.Lock
+   only (Legacy: never the code the model corresponds to; the witness of c06_guard_at_lock_only_refuted) *)
+Definition legacy_step (s : state) (o : op) : state * obs :=
+  match o with
+  | Open1 u id =>
+      let l := cache_get s id in
+      (set_upds s (aset u {| u_cid := id; u_roots := l; u_old := l; u_acts := [] |} (upds s)), ORes (Ok tt))
+  | Commit1 u nrev nfsize nmroot fault =>
+      match alookup u (upds s) with
+      | None => (s, ORes (Err ENotFound))
+      | Some x =>
+          outcome s (m_commit1 s x nrev nfsize nmroot fault)
+            (fun d => set_upds (set_cache (set_dbs s d) (aset (u_cid x) (u_roots x) (cache s)))
+                        (aset u {| u_cid := u_cid x; u_roots := u_roots x; u_old := u_roots x;
+                                   u_acts := [] |} (upds s)))
+      end
+  | Renew1 old new crev cfsize cmroot nrev nfsize nmroot nws mold fault =>
+      outcome s (m_renew1 s old new crev cfsize cmroot nrev nfsize nmroot nws mold fault)
+        (fun d => set_cache (set_dbs s d) (cdel old (aset new (cache_get s old) (cache s))))
+  | _ => step s o
   end.
 
 (** * Correspondence entry point *)
